@@ -103,6 +103,7 @@ def check_c06(case, impl):
     trace, results, tail = po
     if tail is None:
         return "malformed output tail"
+    trace = [(tid, e) for tid, e in trace if e[0] not in "()"]
     live, freed = {0}, set()
     nthreads = len(results)
     rc = nthreads
@@ -150,45 +151,87 @@ def check_c06(case, impl):
     return None
 
 
+def strip_markers(trace_str):
+    """the hook events of a trace, without the operation boundary markers of the harness"""
+    return " ".join(x for x in trace_str.split(" ") if x and x.split(":", 1)[1][0] not in "()")
+
+
+def op_intervals(trace):
+    """(tid, op index) -> (position of the begin marker, position of the end marker) in the trace"""
+    iv = {}
+    for i, (tid, e) in enumerate(trace):
+        if e[0] == "(":
+            iv[(int(tid), int(e[1:]))] = [i, None]
+        elif e[0] == ")":
+            iv[(int(tid), int(e[1:]))][1] = i
+    return iv
+
+
+def slot_apply(cur, op):
+    """sequential optional-slot semantics: (new content, result text)"""
+    c = op[0]
+    v = op[1:].split(":")[1] if ":" in op else None
+    if c == "S":
+        return v, "set=%s" % v
+    if c == "T":
+        return (v, "tryset=ok%s" % v) if cur is None else (cur, "tryset=err%s" % v)
+    if c == "G":
+        return cur, "get=%s" % (cur if cur is not None else "-")
+    return None, "cleared"
+
+
 def check_c18(case, impl):
+    """linearizability of the data operations against the sequential optional slot of each tree position:
+    there must be a total order of the operations that respects program order and real-time order (an operation that
+    returned before another one started comes first) and explains every result"""
     ev, programs, _ = parse_case(case)
     po = parse_out(impl)
     if po is None:
         return "malformed output: " + impl[:200]
     trace, results, tail = po
-    # the data operations of each thread, in program order, with their results
     fin = run_events(Cache(), ev)[1]
     t = T(fin)
-    queues = []
-    for prog, res in zip(programs, results):
+    iv = op_intervals(trace)
+    ops = []          # (tid, index in thread, op, position, result, begin, end)
+    for tid, (prog, res) in enumerate(zip(programs, results)):
         exp = expected_positions(t, prog)
-        q = [(op, got) for op, (kind, pos), got in zip(prog, exp, res) if kind == "data" and pos is not None]
-        queues.append(q)
-    slot = {}           # block -> value
-    for tid, e in trace:
-        if e[0] not in "DE":
-            continue
-        b = int(e[1:])
-        tid = int(tid)
-        if not queues[tid]:
-            return "thread %d takes the data lock without a pending data operation" % tid
-        op, got = queues[tid].pop(0)
-        c = op[0]
-        v = op[1:].split(":")[1] if ":" in op else None
-        cur = slot.get(b)
-        if c == "S":
-            exp = "set=%s" % v; slot[b] = v
-        elif c == "T":
-            if cur is None:
-                exp = "tryset=ok%s" % v; slot[b] = v
+        if len(exp) != len(res):
+            return "thread %d: %d results for %d operations" % (tid, len(res), len(exp))
+        for k, (op, (kind, pos), got) in enumerate(zip(prog, exp, res)):
+            if kind == "data" and pos is not None:
+                b, e = iv.get((tid, k), (None, None))
+                if b is None or e is None:
+                    return "thread %d operation %d has no boundary markers in the trace" % (tid, k)
+                ops.append((tid, k, op, pos, got, b, e))
+    n = len(ops)
+    order = []
+
+    def search(done, slots):
+        if len(done) == n:
+            return True
+        for i, (tid, k, op, pos, got, b, e) in enumerate(ops):
+            if i in done:
+                continue
+            # program order and real-time order: nothing that must come before i is still pending
+            if any(j not in done and j != i and (ops[j][6] < b or (ops[j][0] == tid and ops[j][1] < k)) for j in range(n)):
+                continue
+            new, exp = slot_apply(slots.get(pos), op)
+            if exp != got:
+                continue
+            s2 = dict(slots)
+            if new is None:
+                s2.pop(pos, None)
             else:
-                exp = "tryset=err%s" % v
-        elif c == "G":
-            exp = "get=%s" % (cur if cur is not None else "-")
-        else:
-            exp = "cleared"; slot.pop(b, None)
-        if got != exp:
-            return "thread %d %s on node #%d returned %s; in lock order the slot semantics give %s" % (tid, op, b, got, exp)
+                s2[pos] = new
+            order.append(i)
+            if search(done | {i}, s2):
+                return True
+            order.pop()
+        return False
+
+    if not search(frozenset(), {}):
+        descr = ", ".join("thread %d %s -> %s" % (o[0], o[2], o[4]) for o in sorted(ops, key=lambda o: o[5]))
+        return "the results of the data operations are not those of any one-at-a-time execution: " + descr
     if tail is None:
         return "malformed output tail"
     leak, dropped, created = tail
